@@ -1,6 +1,6 @@
 from typing import Any, Awaitable, Callable
 
-from .base import BaseAuth
+from .base import BaseAuth, merge_headers
 
 
 class BearerAuth(BaseAuth):
@@ -12,7 +12,7 @@ class BearerAuth(BaseAuth):
     async def authenticate_request(self, request_args: dict[str, Any]) -> dict[str, Any]:
         # Ensure headers dict exists
         headers = dict(request_args.get("headers", {}))
-        headers["Authorization"] = f"Bearer {self.token}"
+        merge_headers(headers, {"Authorization": f"Bearer {self.token}"})
         request_args["headers"] = headers
         return request_args
 
@@ -26,7 +26,7 @@ class HeadersAuth(BaseAuth):
     async def authenticate_request(self, request_args: dict[str, Any]) -> dict[str, Any]:
         # Merge custom headers
         hdrs = dict(request_args.get("headers", {}))
-        hdrs.update(self.headers)
+        merge_headers(hdrs, self.headers)
         request_args["headers"] = hdrs
         return request_args
 
@@ -48,7 +48,7 @@ class ApiKeyAuth(BaseAuth):
     async def authenticate_request(self, request_args: dict[str, Any]) -> dict[str, Any]:
         if self.location == "header":
             headers = dict(request_args.get("headers", {}))
-            headers[self.name] = self.key
+            merge_headers(headers, {self.name: self.key})
             request_args["headers"] = headers
         elif self.location == "query":
             params = dict(request_args.get("params", {}))
@@ -84,6 +84,6 @@ class OAuth2Auth(BaseAuth):
             if new_token and new_token != self.access_token:
                 self.access_token = new_token
         headers = dict(request_args.get("headers", {}))
-        headers["Authorization"] = f"Bearer {self.access_token}"
+        merge_headers(headers, {"Authorization": f"Bearer {self.access_token}"})
         request_args["headers"] = headers
         return request_args
